@@ -628,8 +628,11 @@ class World:
                 if len(o) > 4:
                     o.pop()
         except Exception as e:
-            self.fail('object-state', 'unreadable', 'after the failed commit object %s cannot be used: %r' % (n, e))
-            return
+            if m.lenient_disowned and m.savepoints and n not in m.committed:
+                pass        # (a new object already saved by a savepoint: disowned as a ghost, not used again)
+            else:
+                self.fail('object-state', 'unreadable', 'after the failed commit object %s cannot be used: %r' % (n, e))
+                return
         if n in m.committed:
             self.tm.abort()         # the repair of a committed object is itself a change: discard it
         self.labels.add('failed-commit-unpicklable')
